@@ -73,8 +73,11 @@ class CmdScenario(wfscn.ProgScenario):
             if pend and tag not in h:
                 h.append(tag)
         if kind in ('resume', 'resume_sub'):
-            n = q("select count(*) from task_executions_v2 "
-                  "where state='IDLE'")[0][0]
+            idle = [r[0] for r in q("select id from task_executions_v2 "
+                                    "where state='IDLE'")]
+            n = sum(1 for m in env.W.msgs if m.method == 'start_task'
+                    and any(i in m.kwargs.get('task_ex_id', '')
+                            for i in idle))
             if n and 'resume-while-a-created-task-was-not-started-yet' \
                     not in h:
                 h.append('resume-while-a-created-task-was-not-started-yet')
